@@ -1,6 +1,7 @@
 package main
 
 import (
+	"bytes"
 	"encoding/hex"
 	"encoding/json"
 	"errors"
@@ -10,6 +11,7 @@ import (
 	"time"
 
 	hio "github.com/hprose/hprose-golang/v3/io"
+	"github.com/hprose/hprose-golang/v3/rpc/codec/jsonrpc"
 	"github.com/hprose/hprose-golang/v3/rpc/core"
 
 	"verif/harness/fmtx"
@@ -243,6 +245,223 @@ func c07One(t *tr.Writer, id int, svc *core.Service, sh c07Shape, o c07Opts) {
 	rec["expresult"] = fmtx.Abs(exp)
 }
 
+// ---- the JSON-RPC codec (rpc/codec/jsonrpc) ----
+
+type c07JShape struct {
+	Label   string
+	Name    string
+	Args    []interface{}
+	Headers map[string]interface{}
+	Result  interface{}
+	Returns []reflect.Type
+	Wire    bool // compare the JSON on the wire with the values passed (not for structs: their JSON keys are Go's)
+}
+
+func c07JShapes() []c07JShape {
+	intT, strT := reflect.TypeOf(0), reflect.TypeOf("")
+	ifaceT := reflect.TypeOf((*interface{})(nil)).Elem()
+	plainT, pplainT := reflect.TypeOf(gen.Plain{}), reflect.TypeOf((*gen.Plain)(nil))
+	h0 := map[string]interface{}{}
+	h1 := map[string]interface{}{"trace": "shared", "flag": true, "l": []interface{}{"x", "x"}}
+	p := &gen.Plain{A: 1, B: "shared", C: 1.5}
+	var out []c07JShape
+	add := func(label, name string, args []interface{}, h map[string]interface{}, wire bool, result interface{}, returns ...reflect.Type) {
+		out = append(out, c07JShape{label, name, args, h, result, returns, wire})
+	}
+	add("j-no-args", "f0", nil, h0, true, nil)
+	add("j-no-args-headers", "f0", nil, h1, true, nil)
+	add("j-one-int", "f1", []interface{}{42}, h0, true, 42, intT)
+	add("j-one-int-negative", "f1", []interface{}{-7}, h1, true, -7, intT)
+	add("j-two-strings", "f2", []interface{}{"shared", "shared"}, h1, true, "sharedshared", strT)
+	add("j-strings-escapes", "f2", []interface{}{"quote\"back\\slash", "nl\n\u00e9\U0001F600"}, h0, true, "r\"\n", strT)
+	add("j-variadic-none", "fv", []interface{}{1}, h0, true, 1, intT)
+	add("j-variadic-two", "fv", []interface{}{1, "a", "a"}, h0, true, 1, intT)
+	add("j-map-arg", "fm", []interface{}{map[string]interface{}{"k": "v", "l": []interface{}{"a", true, nil}}}, h1, true, 2, intT)
+	add("j-list-arg", "fl", []interface{}{[]int{1, 2, 3}}, h0, true, 3, intT)
+	add("j-list-arg-empty", "fl", []interface{}{[]int{}}, h0, true, 0, intT)
+	add("j-any-string", "fany", []interface{}{"s"}, h0, true, "r", strT)
+	add("j-any-nil", "fany", []interface{}{nil}, h0, true, nil, ifaceT)
+	add("j-any-bool", "fany", []interface{}{true}, h0, true, false, reflect.TypeOf(true))
+	add("j-any-list", "fany", []interface{}{[]interface{}{"a", "b", "a"}}, h0, true, []interface{}{"x", "y"}, reflect.TypeOf([]string(nil)))
+	add("j-struct-by-value", "fs", []interface{}{gen.Plain{A: 1, B: "x", C: 2.5}}, h0, false, gen.Plain{A: 1, B: "x", C: 2.5}, plainT)
+	add("j-struct-pointer", "fp", []interface{}{p}, h1, false, p, pplainT)
+	add("j-upper-case-name", "F1", []interface{}{3}, h0, true, 3, intT)
+	add("j-non-ascii-name", "привет", []interface{}{"мир"}, h1, true, "мир", strT)
+	add("j-several-results", "f1", []interface{}{1}, h0, true, []interface{}{1, "two", true}, intT, strT, reflect.TypeOf(true))
+	add("j-several-results-fewer", "f1", []interface{}{1}, h0, true, []interface{}{1}, intT, strT)
+	add("j-result-map", "f1", []interface{}{1}, h1, true, map[string]interface{}{"a": "x", "b": "x"}, reflect.TypeOf(map[string]interface{}(nil)))
+	add("j-result-struct-list", "f1", []interface{}{1}, h0, false, []gen.Plain{{A: 1, B: "x"}, {A: 2, B: "x"}}, reflect.TypeOf([]gen.Plain(nil)))
+	add("j-error", "f1", []interface{}{1}, h0, true, errors.New("boom"), intT)
+	add("j-error-with-headers", "f1", []interface{}{1}, h1, true, errors.New("shared"), intT)
+	add("j-panic-error", "f1", []interface{}{1}, h0, true, core.NewPanicError("kaboom"), intT)
+	add("j-error-non-ascii", "f1", []interface{}{1}, h0, true, errors.New("ошибка \U0001F600 \"q\""), intT)
+	add("j-method-not-found", "nosuch", []interface{}{1}, h0, true, nil, intT)
+	add("j-invalid-params", "f1", []interface{}{"not-a-number"}, h0, true, nil, intT)
+	add("j-more-args-than-params", "f1", []interface{}{1, "extra"}, h0, true, nil, intT)
+	return out
+}
+
+// jsonValue parses JSON keeping integers apart from other numbers
+func jsonValue(b []byte) (interface{}, bool) {
+	d := json.NewDecoder(bytes.NewReader(b))
+	d.UseNumber()
+	var v interface{}
+	if err := d.Decode(&v); err != nil {
+		return nil, false
+	}
+	var conv func(x interface{}) interface{}
+	conv = func(x interface{}) interface{} {
+		switch y := x.(type) {
+		case json.Number:
+			if i, err := y.Int64(); err == nil {
+				return int(i)
+			}
+			f, _ := y.Float64()
+			return f
+		case []interface{}:
+			for i := range y {
+				y[i] = conv(y[i])
+			}
+			return y
+		case map[string]interface{}:
+			for k := range y {
+				y[k] = conv(y[k])
+			}
+			return y
+		}
+		return x
+	}
+	return conv(v), true
+}
+
+func c07JSONOne(t *tr.Writer, id int, svc *core.Service, sh c07JShape, ccodec core.ClientCodec, scodec core.ServiceCodec) {
+	empty := fmtx.Graph{Nodes: []fmtx.AV{}, Root: fmtx.AV{"k": "nil"}}
+	noMsg := tr.Rec{"ok": false, "jsonrpc": "", "method": "", "id": "", "params": empty, "headers": empty, "hasresult": false, "result": empty,
+		"haserror": false, "errmessage": "", "errcode": 0}
+	rec := tr.Rec{"ev": "one", "case": id, "kind": "jsonrpc", "label": sh.Label, "name": sh.Name, "nargs": len(sh.Args), "wire": sh.Wire,
+		"csimple": false, "ssimple": false, "opts": c07Opts{Types: -1}, "input": tr.Rec{"label": sh.Label, "opts": c07Opts{Types: -1}}, "req": noMsg, "resp": noMsg}
+	for _, k := range []string{"args", "hdr", "shdr", "sargs", "result", "expresult", "cresult"} {
+		rec[k] = empty
+	}
+	for _, k := range []string{"encerr", "sdecerr", "sencerr", "cdecerr", "sname", "errmsg"} {
+		rec[k] = "none"
+	}
+	rec["iserror"] = false
+	defer func() {
+		if p := recover(); p != nil {
+			rec["encerr"] = fmt.Sprint("PANIC ", p)
+		}
+		t.Emit(rec)
+	}()
+	message := func(b []byte) tr.Rec {
+		m := tr.Rec{}
+		for k, v := range noMsg {
+			m[k] = v
+		}
+		v, ok := jsonValue(b)
+		o, isObj := v.(map[string]interface{})
+		if !ok || !isObj {
+			return m
+		}
+		m["ok"] = true
+		m["jsonrpc"], _ = o["jsonrpc"].(string)
+		m["method"], _ = o["method"].(string)
+		m["id"] = fmt.Sprint(o["id"])
+		params, _ := o["params"].([]interface{})
+		if params == nil {
+			params = []interface{}{}
+		}
+		m["params"] = fmtx.Abs(params)
+		h, _ := o["headers"].(map[string]interface{})
+		if h == nil {
+			h = map[string]interface{}{}
+		}
+		m["headers"] = fmtx.Abs(h)
+		if r, has := o["result"]; has {
+			m["hasresult"] = true
+			m["result"] = fmtx.Abs(r)
+		}
+		if e, has := o["error"].(map[string]interface{}); has {
+			m["haserror"] = true
+			m["errmessage"], _ = e["message"].(string)
+			if c, ok := e["code"].(int); ok {
+				m["errcode"] = c
+			}
+		}
+		return m
+	}
+	cc := core.NewClientContext()
+	for k, v := range sh.Headers {
+		cc.RequestHeaders().Set(k, v)
+	}
+	rec["args"] = fmtx.Abs(append([]interface{}{}, sh.Args...))
+	rec["hdr"] = fmtx.Abs(sh.Headers)
+	req, err := ccodec.Encode(sh.Name, sh.Args, cc)
+	if err != nil {
+		rec["encerr"] = err.Error()
+		return
+	}
+	rec["req"] = message(req)
+	if len(req) < 300 {
+		rec["reqtext"] = string(req)
+	}
+	sc := core.NewServiceContext(svc)
+	sname, sargs, derr := scodec.Decode(req, sc)
+	result := sh.Result
+	if derr != nil {
+		rec["sdecerr"] = derr.Error()
+		result = derr // what Service.Handle does with a decode error
+	} else {
+		rec["sname"] = sname
+		if sargs == nil {
+			sargs = []interface{}{}
+		}
+		rec["sargs"] = fmtx.Abs(sargs)
+	}
+	h := sc.RequestHeaders().ToMap()
+	if h == nil {
+		h = map[string]interface{}{}
+	}
+	rec["shdr"] = fmtx.Abs(h)
+	if e, ok := result.(error); ok {
+		rec["iserror"] = true
+		rec["errmsg"] = e.Error()
+	}
+	rec["result"] = fmtx.Abs(result)
+	if len(sh.Headers) > 0 {
+		sc.ResponseHeaders().Set("rh", "shared")
+	}
+	resp, err := scodec.Encode(result, sc)
+	if err != nil {
+		rec["sencerr"] = err.Error()
+		return
+	}
+	rec["resp"] = message(resp)
+	if len(resp) < 300 {
+		rec["resptext"] = string(resp)
+	}
+	cc.ReturnType = sh.Returns
+	cres, err := ccodec.Decode(resp, cc)
+	if err != nil {
+		rec["cdecerr"] = err.Error()
+	}
+	if cres == nil {
+		cres = []interface{}{}
+	}
+	rec["cresult"] = fmtx.Abs(cres)
+	var exp []interface{}
+	switch {
+	case len(sh.Returns) == 0 || result == nil:
+		exp = []interface{}{}
+	case len(sh.Returns) == 1:
+		exp = []interface{}{result}
+	default:
+		l, _ := result.([]interface{})
+		exp = append(exp, l...)
+	}
+	rec["expresult"] = fmtx.Abs(exp)
+}
+
 func runC07(a Args) tr.Summary {
 	t := tr.New(a.Out)
 	defer t.Close()
@@ -278,9 +497,19 @@ func runC07(a Args) tr.Summary {
 			}
 		}
 	}
+	jshapes := c07JShapes()
+	jc, js := jsonrpc.NewClientCodec(nil), jsonrpc.NewServiceCodec(nil) // one pair: the request ids go up
+	for _, sh := range jshapes {
+		if a.Only != "" && (o.Label != sh.Label) {
+			continue
+		}
+		id++
+		Watch(id, tr.Rec{"label": sh.Label}, only{sh.Label, c07Opts{Types: -1}})
+		c07JSONOne(t, id, svc, sh, jc, js)
+	}
 	sum.Cases = id
 	sum.Events = t.Lines
 	sum.Nontrivial = id
-	sum.Extra = tr.Rec{"shapes": len(shapes), "option_pairs": 16, "exhaustive": true}
+	sum.Extra = tr.Rec{"shapes": len(shapes), "option_pairs": 16, "jsonrpc_shapes": len(jshapes), "exhaustive": true}
 	return sum
 }
